@@ -19,8 +19,12 @@ func main() {
 	}
 	switch os.Args[1] {
 	case "hist":
-		runHist(os.Args[2], os.Args[3])
+		withChild("histchild", os.Args[2], os.Args[3])
 	case "sched":
+		withChild("schedchild", os.Args[2], os.Args[3])
+	case "histchild":
+		runHist(os.Args[2], os.Args[3])
+	case "schedchild":
 		runSched(os.Args[2], os.Args[3])
 	case "time":
 		runTime(os.Args[2], os.Args[3])
